@@ -18,6 +18,51 @@ S = "frame::serial::"
 FB = "half_connection::packet_receiver::assembly_window::fragment_buffer::FragmentBuffer::"
 
 
+def inst_fragment_flags(cx, iid):
+    R = cx.R
+    with cx.instance(iid, "T7 SHAPE + T4 SIBLING", "the reassembled length is the sum of the fragment lengths written; per-fragment flag words address bit (i mod 64) of word (i div 64) at both flag users", floor=6) as inst:
+        fw = R.body(FB + "write")
+        for l, node, ps in fw.field_writes(r"arg1\.(total_size|fragments_remaining)"):
+            v = show(fw.rvalue_expr(node["rv"]))
+            inst.site(fw, l, "%s = %s" % (ps, v))
+            want = {"arg1.total_size": ("add([T]::len(arg3),arg1.total_size)", "add(arg1.total_size,[T]::len(arg3))"), "arg1.fragments_remaining": ("sub(arg1.fragments_remaining,1)",)}[ps]
+            if v not in want:
+                inst.violation(fw.path, "update of " + ps.split(".")[-1], "FragmentBuffer::write sets %s = `%s`, expected %s" % (ps.split(".")[-1], v, want[0]), at=fw.span_at(l))
+        fnb = R.body(FB + "new")
+        for l, st in fnb.assigns():
+            rv = st["rv"]
+            if rv["k"] == "agg" and rv.get("adt", "").endswith("FragmentBuffer"):
+                f = {n: show(fnb.operand_expr(o)) for n, o in zip(rv["fields"], rv["ops"])}
+                inst.site(fnb, l, "FragmentBuffer{total_size: %s, fragments_remaining: %s, num_fragments: %s}" % (f.get("total_size"), f.get("fragments_remaining"), f.get("num_fragments")))
+                if (f.get("total_size"), f.get("fragments_remaining"), f.get("num_fragments")) != ("0", "arg1", "arg1"):
+                    inst.violation(fnb.path, "initial counters", "a new reassembly buffer starts with total_size=%s fragments_remaining=%s num_fragments=%s" % (f.get("total_size"), f.get("fragments_remaining"), f.get("num_fragments")), at=fnb.span_at(l))
+        fin = R.body(FB + "is_finished")
+        e = show(fin.local_expr(0))
+        inst.site(fin, None, "is_finished = " + e)
+        if e not in ("eq(0,arg1.fragments_remaining)", "eq(arg1.fragments_remaining,0)"):
+            inst.violation(fin.path, "is_finished", "is_finished is `%s`" % e)
+        # bit addressing: receiver bitfield and sender ack flags
+        bits = {}
+        for l, node, ps in fw.field_writes(r"arg1\.fragment_bitfields\[.*\]"):
+            bits["FragmentBuffer::write"] = (ps, show(fw.rvalue_expr(node["rv"])))
+        want_rx = ("arg1.fragment_bitfields[div(arg2,64)]", "bitor(arg1.fragment_bitfields[div(arg2,64)],shl(1,rem(arg2,64)))")
+        inst.site(fw, None, "receiver flag update: %s" % (bits.get("FragmentBuffer::write"),))
+        if bits.get("FragmentBuffer::write") not in (want_rx, (want_rx[0], "bitor(shl(1,rem(arg2,64)),arg1.fragment_bitfields[div(arg2,64)])")):
+            inst.violation(fw.path, "fragment bit addressing", "fragment bit is recorded as %s" % (bits.get("FragmentBuffer::write"),))
+        pa = R.body("PendingPacket::acknowledge_fragment")
+        pq = R.body("PendingPacket::fragment_acknowledged")
+        setv = [(ps, show(pa.rvalue_expr(node["rv"]))) for l, node, ps in pa.field_writes(r"arg1\.ack_flags\[.*\]")]
+        word = "arg1.ack_flags[cast<usize>(div(arg2,64))]"
+        bit = "shl(1,cast<u64>(rem(arg2,64)))"
+        inst.site(pa, None, "sender ack flag set: %s" % setv)
+        if setv not in ([(word, "bitor(%s,%s)" % (word, bit))], [(word, "bitor(%s,%s)" % (bit, word))]):
+            inst.violation(pa.path, "ack flag addressing (set)", "acknowledge_fragment records %s; expected word i/64, bit i%%64" % setv)
+        q = show(pq.local_expr(0))
+        inst.site(pq, None, "sender ack flag test: " + q)
+        if q not in ("ne(0,bitand(%s,%s))" % (word, bit), "ne(0,bitand(%s,%s))" % (bit, word), "ne(bitand(%s,%s),0)" % (word, bit)):
+            inst.violation(pq.path, "ack flag addressing (test)", "fragment_acknowledged tests `%s`; expected the same word i/64, bit i%%64 as acknowledge_fragment" % q)
+
+
 def run(cx):
     R = cx.R
     with cx.instance("C04.a", "T9 CONST", "size constants agree with the writers' literal header lengths; a full fragment fits a frame; MAX_PACKET_SIZE = M * 2^16", floor=6) as inst:
@@ -161,47 +206,7 @@ def run(cx):
         cx.guard(inst, ta, ws, [eqs], construct="inconsistent fragment accepted", why="a fragment whose header disagrees with the first one seen must not change the packet")
         if not ws:
             inst.violation(ta.path, "Active-arm write", "the Active-arm FragmentBuffer::write was not found (anchor)")
-    with cx.instance("C04.f", "T7 SHAPE + T4 SIBLING", "the reassembled length is the sum of the fragment lengths written; per-fragment flag words address bit (i mod 64) of word (i div 64) at both flag users", floor=6) as inst:
-        fw = R.body(FB + "write")
-        for l, node, ps in fw.field_writes(r"arg1\.(total_size|fragments_remaining)"):
-            v = show(fw.rvalue_expr(node["rv"]))
-            inst.site(fw, l, "%s = %s" % (ps, v))
-            want = {"arg1.total_size": ("add([T]::len(arg3),arg1.total_size)", "add(arg1.total_size,[T]::len(arg3))"), "arg1.fragments_remaining": ("sub(arg1.fragments_remaining,1)",)}[ps]
-            if v not in want:
-                inst.violation(fw.path, "update of " + ps.split(".")[-1], "FragmentBuffer::write sets %s = `%s`, expected %s" % (ps.split(".")[-1], v, want[0]), at=fw.span_at(l))
-        fnb = R.body(FB + "new")
-        for l, st in fnb.assigns():
-            rv = st["rv"]
-            if rv["k"] == "agg" and rv.get("adt", "").endswith("FragmentBuffer"):
-                f = {n: show(fnb.operand_expr(o)) for n, o in zip(rv["fields"], rv["ops"])}
-                inst.site(fnb, l, "FragmentBuffer{total_size: %s, fragments_remaining: %s, num_fragments: %s}" % (f.get("total_size"), f.get("fragments_remaining"), f.get("num_fragments")))
-                if (f.get("total_size"), f.get("fragments_remaining"), f.get("num_fragments")) != ("0", "arg1", "arg1"):
-                    inst.violation(fnb.path, "initial counters", "a new reassembly buffer starts with total_size=%s fragments_remaining=%s num_fragments=%s" % (f.get("total_size"), f.get("fragments_remaining"), f.get("num_fragments")), at=fnb.span_at(l))
-        fin = R.body(FB + "is_finished")
-        e = show(fin.local_expr(0))
-        inst.site(fin, None, "is_finished = " + e)
-        if e not in ("eq(0,arg1.fragments_remaining)", "eq(arg1.fragments_remaining,0)"):
-            inst.violation(fin.path, "is_finished", "is_finished is `%s`" % e)
-        # bit addressing: receiver bitfield and sender ack flags
-        bits = {}
-        for l, node, ps in fw.field_writes(r"arg1\.fragment_bitfields\[.*\]"):
-            bits["FragmentBuffer::write"] = (ps, show(fw.rvalue_expr(node["rv"])))
-        want_rx = ("arg1.fragment_bitfields[div(arg2,64)]", "bitor(arg1.fragment_bitfields[div(arg2,64)],shl(1,rem(arg2,64)))")
-        inst.site(fw, None, "receiver flag update: %s" % (bits.get("FragmentBuffer::write"),))
-        if bits.get("FragmentBuffer::write") not in (want_rx, (want_rx[0], "bitor(shl(1,rem(arg2,64)),arg1.fragment_bitfields[div(arg2,64)])")):
-            inst.violation(fw.path, "fragment bit addressing", "fragment bit is recorded as %s" % (bits.get("FragmentBuffer::write"),))
-        pa = R.body("PendingPacket::acknowledge_fragment")
-        pq = R.body("PendingPacket::fragment_acknowledged")
-        setv = [(ps, show(pa.rvalue_expr(node["rv"]))) for l, node, ps in pa.field_writes(r"arg1\.ack_flags\[.*\]")]
-        word = "arg1.ack_flags[cast<usize>(div(arg2,64))]"
-        bit = "shl(1,cast<u64>(rem(arg2,64)))"
-        inst.site(pa, None, "sender ack flag set: %s" % setv)
-        if setv not in ([(word, "bitor(%s,%s)" % (word, bit))], [(word, "bitor(%s,%s)" % (bit, word))]):
-            inst.violation(pa.path, "ack flag addressing (set)", "acknowledge_fragment records %s; expected word i/64, bit i%%64" % setv)
-        q = show(pq.local_expr(0))
-        inst.site(pq, None, "sender ack flag test: " + q)
-        if q not in ("ne(0,bitand(%s,%s))" % (word, bit), "ne(0,bitand(%s,%s))" % (bit, word), "ne(bitand(%s,%s),0)" % (word, bit)):
-            inst.violation(pq.path, "ack flag addressing (test)", "fragment_acknowledged tests `%s`; expected the same word i/64, bit i%%64 as acknowledge_fragment" % q)
+    inst_fragment_flags(cx, "C04.f")
     with cx.instance("C04.e", "T1 GUARD", "fragment ids and sizes are validated before reassembly (datagram_is_valid clauses, try_add under it)", floor=3) as inst:
         from props.C03 import check_validators
         inst.site("<shared>", None, "C03.V.datagram")
@@ -209,9 +214,35 @@ def run(cx):
         inst.site("<shared>", None, "see instances below")
     from props.C03 import check_validators
     check_validators(cx, "C04.e")
+    # reassembly is exact only if a slot's stale fragments never survive the window advance, and every
+    # fragment id of a packet is enumerated by the sender (inclusive range: 65536 fragments do not overflow)
+    with cx.instance("C04.i", "T1x EXACT-GUARD", "send() refuses (panics) only for len > max_packet_size or channel >= CHANNEL_COUNT: a packet of exactly max_packet_size bytes is accepted", floor=4) as inst:
+        for fn, mps in (("client::Client::send", r"arg1\.config\.endpoint_config\.max_packet_size"), ("server::remote_client::RemoteClient::send", r"arg1\.max_packet_size")):
+            sb = R.body(fn)
+            fa = cx.fa(sb)
+            n = 0
+            for l, t in sb.calls("re:panic"):
+                n += 1
+                inst.site(sb, l, "panic site in send()")
+                g, bad = dnf_holds(fa.at(l), [[r"lt\(%s,\[T\]::len\(arg2\)\)" % mps], [r"le\(CHANNEL_COUNT,arg3\)"]])
+                if not g:
+                    inst.violation(sb.path, "send() refusal", "send() panics on a path where neither len > max_packet_size nor channel >= CHANNEL_COUNT is established", at=sb.span_at(l), detail={"facts_on_offending_path": sorted(bad)[:6] if bad else []})
+            if n != 2:
+                inst.violation(sb.path, "send() refusals", "expected the two documented refusals in send(), found %d panic sites" % n)
+    from props.shared import window_walks
+    window_walks(cx, "C04.g")
+    from props.C05 import fragment_enumeration
+    with cx.instance("C04.h", "T5 LOOP + T7", "the sender queues fragment ids 0..=last_fragment_id of each packet, ascending", floor=1) as inst:
+        fragment_enumeration(cx, inst)
 
 
 SELFTEST = [
+    {"name": "send() refuses a packet of exactly max_packet_size (server side)",
+     "edits": [{"file": "src/server/remote_client.rs", "old": "assert!(data.len() <= self.max_packet_size,", "new": "assert!(data.len() < self.max_packet_size,"}],
+     "expect": ["C04.i"]},
+    {"name": "fragment ids enumerated with an exclusive u16 range (overflows at 65536 fragments)",
+     "edits": [{"file": "src/half_connection/mod.rs", "old": "                    for i in 0 ..= last_fragment_id {", "new": "                    for i in 0 .. last_fragment_id + 1 {"}],
+     "expect": ["C04.h"]},
     {"name": "allow potential_frame_size > MAX_FRAME_SIZE + 10",
      "edits": [{"file": "src/half_connection/emit.rs", "old": "potential_frame_size > MAX_FRAME_SIZE ||", "new": "potential_frame_size > MAX_FRAME_SIZE + 10 ||"}],
      "expect": ["C04.b"]},
